@@ -128,6 +128,37 @@ class ProtoProfile:
 
 runner.register(ProtoProfile())
 
+
+class ProtoBurstProfile:
+    """C10: protocol runs (one input line per step, every monitor on) mixed with burst runs: a recorded session
+    (whose `in use` figures the protocol monitors have already checked against the model) is delivered once a
+    line per read and once with several lines sharing a read(); no crash, no sanitizer report, clean exit, and
+    the same `in use` figures (bytes profile, 'indiff'/'robust' modes).  Plans carry their own profile name."""
+    name = "protoburst"
+
+    def _sub(self, plan):
+        return runner.profile("bytes" if plan.get("profile") == "bytes" else "proto")
+
+    def gen_run(self, rnd, opts, tier, tag):
+        if rnd.random() < opts.get("p_burst", 0.15):
+            plan, res = runner.profile("bytes").gen_run(rnd, {"prop": "C10"}, "quick", tag)
+            res.extra = dict(getattr(res, "extra", {}) or {})
+            res.extra["burst_runs"] = 1
+            return plan, res
+        return runner.profile("proto").gen_run(rnd, opts, tier, tag)
+
+    def run(self, plan, tag):
+        return self._sub(plan).run(plan, tag)
+
+    def transcript(self, res):
+        return fmt_transcript(res)
+
+    def shrink(self, plan, pred, budget):
+        return self._sub(plan).shrink(plan, pred, budget)
+
+
+runner.register(ProtoBurstProfile())
+
 _REAL = ("All of src/*.c and modules/*.c run as shipped inside simhost (ASan+UBSan build of /repo's working tree); "
          "libevent is real; the IRC server, the authorization services and the operator are a seeded model.")
 _ASSUME = [
@@ -166,7 +197,9 @@ PROPS = {
     "C09": _spec("proto", _GEN + "Logs sections on in 80% of runs, all address families and spellings, warning/error-producing junk. Non-trivial = at least one client-directed line validated.",
                  3000, 250000, {"fault_free_every": 8, "p_logs": 0.8},
                  expect_probes=["reload_failed", "junk"]),
-    "C10": _spec("proto", _GEN + "Long histories over 2-6 ids with LeakSanitizer on, stats probe p~0.2, structural audit of the request table. Non-trivial = in-use was compared at least once and a verdict happened.",
+    "C10": _spec("protoburst", _GEN + "Long histories over 2-6 ids (6%: crowds of up to 70 live requests) with LeakSanitizer on, stats probe p~0.2, structural audit "
+                 "of the request table; 15% of the runs are burst runs: a recorded session delivered a line per read and again with several lines per "
+                 "read (same in-use figures, no crash, clean exit). Non-trivial = in-use was compared at least once and a verdict happened.",
                  1200, 60000, {"fault_free_every": 8, "leaks": True, "steps_quick": [60, 200, 600, 1500], "clients_quick": [8, 40, 150, 400],
                                "steps_thorough": [200, 1500, 6000, 20000], "clients_thorough": [40, 400, 2000, 5000], "w_audit": 0.4},
                  expect_probes=["reannounce_live", "registered_early", "disconnect_while_awaiting", "timer_fire"]),
